@@ -64,7 +64,7 @@ PROPS = {
         "rule": ("All shipped examples and generated programs dense in hash-map backed tables (many aliases, functions, "
                  "witnesses, tracked calls; some with parameters or a `main` with a parameter so that compilation fails) x "
                  "debug off/on. Fingerprint = commit bytes, CMR and the debug-symbol entries of every marker in the program. "
-                 "(a) 9 compilations in one process (thorough: 21) are identical; (b) 8 (thorough: 16) separately started "
+                 "Programs with parameters are compiled with their arguments (written to a `mod param` file that every child process parses itself) and, one in eight, without (must fail). (a) 9 compilations in one process (thorough: 21) are identical, and one parsed TemplateProgram instantiated six times (debug off/on alternating) gives the bytes of a fresh compilation every time; (b) 8 (thorough: 16) separately started "
                  "processes print the same fingerprints; (c) `simc FILE [--debug]`, built from /repo's current tree: stdout "
                  "== `Program:\\n` + base64(library bytes) + `\\n` and exit 0 when the library compiles, non-zero exit with a "
                  "message (no signal, no panic) when it does not. distinct_nontrivial = distinct (file, debug) pairs judged at simc."),
